@@ -242,17 +242,33 @@ package dag
 //@ func (PayloadStore).writePayload
 //@   trusted
 //@   benign
+// loadState runs the reload closure (below) in ONE read transaction of the state's database, with the caller's context.
 //@ func (*state).loadState
-//@   trusted
-//@   benign
+//@   prop C08
+//@   assume-benign
+//@   ensures [reloaded-in-a-read-transaction-of-the-states-db] did(call (go-stoabs.KVStore).Read #1) && arg(call (go-stoabs.KVStore).Read #1, 0) == s.db && arg(call (go-stoabs.KVStore).Read #1, 1) == ctx
 // (Re)loading - at start and as the rollback hook of Add - SETS the in-memory highest clock to what is
 // stored (it must be able to go down again after a rolled-back write) and re-reads both digest trees.
 //@ func (*atomic.Uint32).Store
 //@   trusted
 //@   benign
-//@ func (*treeStore).read
+// Re-reading a digest tree replaces the in-memory tree by what the tree's own shelf holds in THIS transaction: every stored
+// page, from clock 0 on, is handed to Load, under the store's lock.
+//@ func (tree.Tree).Load
 //@   trusted
 //@   benign
+//@ func (*treeStore).read
+//@   prop C08
+//@   assume-benign
+//@   ensures [loaded-from-the-trees-own-shelf-in-this-tx] isNilIface(result) ==> did(call (*sync.Mutex).Lock #1) && did(call (tree.Tree).Load #1) && isNilIface(ret(call (tree.Tree).Load #1))
+//@        && arg(call (tree.Tree).Load #1, 0) == store.tree && arg(call (tree.Tree).Load #1, 1) == rawData
+//@        && arg(call (go-stoabs.ReadTx).GetShelfReader #1, 0) == tx && arg(call (go-stoabs.ReadTx).GetShelfReader #1, 1) == old(store.bucketName)
+//@        && did(call (go-stoabs.Reader).Iterate #1) && arg(call (go-stoabs.Reader).Iterate #1, 0) == ret(call (go-stoabs.ReadTx).GetShelfReader #1)
+//@        && isNilIface(ret(call (go-stoabs.Reader).Iterate #1))
+// every page read is put into the map handed to Load under its own clock
+//@ func (*treeStore).read$1
+//@   prop C08
+//@   call mapupdate #1 requires [page-under-its-own-clock] arg(0) == rawData && arg(1) == ret(call keyToClock #1) && arg(call keyToClock #1, 0) == k && same(arg(2), v)
 //@ func (*state).loadState$1
 //@   prop C08
 //@   ensures [highest-clock-set-to-what-is-stored] did(call (*atomic.Uint32).Store #1) && arg(call (*atomic.Uint32).Store #1, 1) == ret(call (dag).getHighestClockValue #1)
